@@ -56,7 +56,7 @@ Definition pinned_compute_minmax_args : list string := [
   "            best_arg = np.argmax(masked_data) if max_mode_flag else np.argmin(masked_data)";
   "            result_data.append(masked_reduce_coords[best_arg])";
   "        else:";
-  "            current_coord = np.array(-1, dtype=coords.dtype)";
+  "            current_coord = np.array(-1, dtype=np.intp)";
   "            found = False";
   "            masked_reduce_coords = masked_reduce_coords[masked_data != fill_value]";
   "            for idx, new_coord in enumerate(np.nditer(np.sort(masked_reduce_coords))):";
@@ -64,7 +64,7 @@ Definition pinned_compute_minmax_args : list string := [
   "                    result_data.append(idx)";
   "                    found = True";
   "                    break";
-  "                current_coord = new_coord";
+  "                current_coord = new_coord.astype(np.intp)";
   "            if not found:";
   "                result_data.append(current_coord + 1)";
   "    return (result_indices, np.array(result_data, dtype=np.intp))"
